@@ -261,6 +261,75 @@ func trimInts(x []int) string {
 	return fw.Trunc(s, 120)
 }
 
+// c09.dumpfaults: Dump into a destination that accepts k bytes and then fails: Dump must report an error for
+// every k below the size of the dump (a nil return means the file is complete).
+type c09Fault struct {
+	Name string `json:"name"`
+	Src  string `json:"src"`
+}
+
+func (c *c09Fault) Key() string { return c.Name }
+
+type limitedWriter struct {
+	room  int
+	wrote int
+	short bool // accept a part of the failing write
+}
+
+func (w *limitedWriter) Write(p []byte) (int, error) {
+	if w.room >= len(p) {
+		w.room -= len(p)
+		w.wrote += len(p)
+		return len(p), nil
+	}
+	n := 0
+	if w.short {
+		n = w.room
+	}
+	w.wrote += n
+	w.room = 0
+	return n, fmt.Errorf("no space left on device")
+}
+
+var subC09Fault = &fw.Sub{Name: "c09.dumpfaults", New: func() fw.Case { return &c09Fault{} }, Exec: func(cs fw.Case) *fw.Fail {
+	c := cs.(*c09Fault)
+	return fw.Guard(func() *fw.Fail {
+		p := impl.Parse(c.Src)
+		if p.Err != nil {
+			return nil
+		}
+		full, err := impl.Dump(p.Prog)
+		if err != nil {
+			return nil
+		}
+		n := len(full)
+		points := 0
+		for k := 0; k < n; k++ {
+			// all fail points for small dumps; for large ones the first and last 300, every buffer boundary +-3, every 61st
+			if n > 3000 && !(k < 300 || k >= n-300 || k%4096 <= 3 || k%4096 >= 4093 || k%61 == 0) {
+				continue
+			}
+			for _, short := range []bool{false, true} {
+				w := &limitedWriter{room: k, short: short}
+				derr := p.Prog.Dump(w)
+				points++
+				if derr == nil {
+					return fw.Failf(fmt.Sprintf("Dump reports an error when the destination fails after %d of %d bytes", k, n), "nil error (short write=%v, %d bytes reached the destination)", short, w.wrote)
+				}
+			}
+		}
+		// and with enough room it succeeds and writes exactly the dump
+		w := &limitedWriter{room: n}
+		if derr := p.Prog.Dump(w); derr != nil || w.wrote != n {
+			return fw.Failf("Dump succeeds when the destination has room for all bytes", "err=%v wrote %d of %d", derr, w.wrote, n)
+		}
+		fw.Tally("fail_points", int64(points))
+		fw.TallyOutcome("dump-faults-reported")
+		fw.TallyNontrivial()
+		return nil
+	})
+}}
+
 var subC09 = &fw.Sub{Name: "c09.roundtrip", New: func() fw.Case { return &c09Case{} }, Exec: c09Exec}
 
 func init() {
@@ -269,12 +338,19 @@ func init() {
 		Level: "model_checking",
 		Rule: "for every accepted program of the core corpus K and the scaled families S (string / identifier / block-name lengths around 94, 240/241, 2287/2288, 4096, 67823/67824; constant pools of 240..242; offsets in every varint class; boundary floats) and for program names of length 0..67824 and names holding %, NUL, newline, non-ASCII and invalid UTF-8 bytes: " +
 			"Dump, then LoadProg under every read delivery of a bounded family (whole, 1 byte/read, data+EOF, halves, every fixed size 2..17 and 4095..4097, every partition with <=k cut points: k=1 for dumps <=6000 B, k=2 for <=150 B (thorough <=900 B), k=3 for <=48 B (thorough <=110 B)); " +
-			"oracle: nil errors, identical disassembly, identical execution (output, blocks, binding, warnings, error text incl. position), byte-identical re-dump (also after loading the dump twice with the exported Load method into a Prog that held a larger program), and the independent decoder recovers the name and a line table equal to the newline offsets of the source. Thorough adds every program of the C01-C04 enumerations under the whole / 1-byte / fixed-size deliveries. A case is (program, name); counters.loads counts LoadProg calls.",
-		Subs:           []*fw.Sub{subC09},
+			"oracle: nil errors, identical disassembly, identical execution (output, blocks, binding, warnings, error text incl. position), byte-identical re-dump (also after loading the dump twice with the exported Load method into a Prog that held a larger program), and the independent decoder recovers the name and a line table equal to the newline offsets of the source. Thorough adds every program of the C01-C04 enumerations under the whole / 1-byte / fixed-size deliveries. A case is (program, name); counters.loads counts LoadProg calls. Sub-check c09.dumpfaults: Dump of 8 programs (small; string constants of 5-20 kB; 9-40 kB of code; long names) into a destination that fails after k bytes (every k for small dumps; first/last 300, buffer boundaries +-3 and every 61st for large ones; with and without a partial last write) must return an error.",
+		Subs:           []*fw.Sub{subC09, subC09Fault},
 		BudgetQuick:    100,
 		BudgetThorough: 1500,
 		Assumptions:    []string{"float constants limited to the boundary bit patterns of the corpus; sizes below 2^24"},
 		Run: func(c *fw.Ctx) {
+			// Dump against a destination that fails after k bytes: small programs, long string constants, long code
+			for i, src := range []string{"print 1", `def b "nm" { x = 1; s = "str"; f = 2.5 }` + "\nbind b -> struct",
+				`print "` + strings.Repeat("s", 5000) + `"`, `print "` + strings.Repeat("t", 9000) + `"; print "` + strings.Repeat("u", 20000) + `"`,
+				strings.Repeat("print 1 + 2 * 3\n", 700), strings.Repeat("print 1 + 2 * 3\n", 3000), strings.Repeat("def b { x = 1 }\n\n", 2500),
+				`def ` + strings.Repeat("n", 9000) + ` "` + strings.Repeat("m", 4090) + `" { x = 1 }`} {
+				c.Do(subC09Fault, &c09Fault{Name: fmt.Sprintf("fault-%d", i), Src: src})
+			}
 			cutsFor := func(src string) int {
 				d, ok := dumpOf(src)
 				if !ok {
